@@ -1888,7 +1888,7 @@ impl Bitvector {
 impl Bitvector {
     fn signed_add_overflow_checked( & self , rhs : & Bitvector ) -> (r: Option < Bitvector >)
     requires self.wf(), rhs.wf(), self.w@ == rhs.w@,
-    ensures r is Some ==> r->Some_0.wf() && r->Some_0.w@ == self.w@ && r->Some_0.s() == self.s() + rhs.s(),
+    ensures r is Some ==> r->Some_0 == bv_add(*self, *rhs) && r->Some_0.wf() && r->Some_0.s() == self.s() + rhs.s(),
             r is None ==> (self.s() + rhs.s() > smax(self.w@) || self.s() + rhs.s() < smin(self.w@)),
     {
         proof {
@@ -1908,7 +1908,7 @@ impl Bitvector {
 impl Bitvector {
     fn signed_sub_overflow_checked( & self , rhs : & Bitvector ) -> (r: Option < Bitvector >)
     requires self.wf(), rhs.wf(), self.w@ == rhs.w@,
-    ensures r is Some ==> r->Some_0.wf() && r->Some_0.w@ == self.w@ && r->Some_0.s() == self.s() - rhs.s(),
+    ensures r is Some ==> r->Some_0 == bv_sub(*self, *rhs) && r->Some_0.wf() && r->Some_0.s() == self.s() - rhs.s(),
             r is None ==> (self.s() - rhs.s() > smax(self.w@) || self.s() - rhs.s() < smin(self.w@)),
     {
         proof {
@@ -1931,7 +1931,7 @@ impl Bitvector {
     ensures r is Err <==> (self.u@ != 0 && self.w@ > 64),
             r is Ok ==> ({
                 let (v, flag) = r->Ok_0;
-                &&& v.wf() && v.w@ == self.w@ && v.u@ == trunc(self.w@, (self.u@ * rhs.u@) as int)
+                &&& v.wf() && v == bv_mul(*self, *rhs)
                 &&& flag <==> (self.s() * rhs.s() > smax(self.w@) || self.s() * rhs.s() < smin(self.w@))
                 &&& !flag ==> v.s() == self.s() * rhs.s()
             }),
